@@ -206,7 +206,11 @@ impl Label {
     /// Panics if `start` is beyond the end of `slice`.
     #[must_use]
     pub fn iter_slice(slice: &[u8], start: usize) -> SliceLabelsIter<'_> {
-        SliceLabelsIter { slice, start }
+        SliceLabelsIter {
+            slice,
+            start,
+            limit: start,
+        }
     }
 
     /// Returns a reference to the underlying octets slice.
@@ -748,6 +752,12 @@ pub struct SliceLabelsIter<'a> {
     ///
     /// As a life hack, we use `usize::MAX` to fuse the iterator.
     start: usize,
+
+    /// The position a compression pointer has to point before.
+    ///
+    /// This is where the current run of labels started. Only accepting
+    /// pointers to before it makes sure the iteration ends.
+    limit: usize,
 }
 
 impl<'a> Iterator for SliceLabelsIter<'a> {
@@ -770,13 +780,14 @@ impl<'a> Iterator for SliceLabelsIter<'a> {
                 }
                 Err(SplitLabelError::Pointer(pos)) => {
                     let pos = pos as usize;
-                    if pos >= self.start {
+                    if pos >= self.limit {
                         // Incidentally, this also covers the case where
                         // pos points past the end of the message.
                         self.start = usize::MAX;
                         return None;
                     }
                     self.start = pos;
+                    self.limit = pos;
                     continue;
                 }
                 Err(_) => {
